@@ -180,6 +180,8 @@ def gen_spec(rng, *, random_units=True, sl_bias=0.35, rules=None, currents=None,
                      'speed': in_unit(rng, 'AngularSpeed', dy(rng, -3, 3) if rng.random() > 0.15 else 0.0, ru)},
             'rules': None, 'ops': []}
     angle_init(rng, spec['init'])
+    if rng.random() < 0.15:
+        spec['load']['numpy'] = True      # the load function returns numpy scalars
     if ru and rng.random() < 0.12:
         # the load callback converts (some of) its arguments in place to its favourite units
         spec['load']['inplace'] = [rng.choice([None, 'rad', 'deg']), rng.choice([None, 'rad/s', 'rpm']), rng.choice(['sec', 'sec', 'ms', None])]
